@@ -8,7 +8,7 @@ cd "$(dirname "$0")"
 SCR=$(mktemp -d "${TMPDIR:-/tmp}/verif-setup.XXXXXX")
 trap 'rm -rf "$SCR"' EXIT
 ( cd harness && go build -o "$SCR/vrewrite" ./cmd/vrewrite )
-"$SCR/vrewrite" -repo /repo -out "$SCR/ov" -sched /verif/harness/ord/verifsched
+"$SCR/vrewrite" -repo /repo -out "$SCR/ov" -sched "$PWD/harness/ord/verifsched"
 ( cd harness && go build -tags verif -overlay "$SCR/ov/overlay.json" -o "$SCR/vcheck" ./cmd/vcheck )
 ( cd /repo && go build -o "$SCR/yaccgo" ./yaccgo )
 # rewriter sanity: the repository's tests must pass under the overlay exactly as without it
